@@ -49,6 +49,12 @@ theories/Onto/Kinds.vos theories/Onto/Kinds.vok theories/Onto/Kinds.required_vos
 theories/Onto/Cmp_proofs.vo theories/Onto/Cmp_proofs.glob theories/Onto/Cmp_proofs.v.beautified theories/Onto/Cmp_proofs.required_vo: theories/Onto/Cmp_proofs.v theories/Base/Prelude.vo theories/Onto/Tree.vo
 theories/Onto/Cmp_proofs.vio: theories/Onto/Cmp_proofs.v theories/Base/Prelude.vio theories/Onto/Tree.vio
 theories/Onto/Cmp_proofs.vos theories/Onto/Cmp_proofs.vok theories/Onto/Cmp_proofs.required_vos: theories/Onto/Cmp_proofs.v theories/Base/Prelude.vos theories/Onto/Tree.vos
+theories/Onto/Update.vo theories/Onto/Update.glob theories/Onto/Update.v.beautified theories/Onto/Update.required_vo: theories/Onto/Update.v theories/Base/Prelude.vo theories/Onto/Tree.vo theories/Onto/Kinds.vo
+theories/Onto/Update.vio: theories/Onto/Update.v theories/Base/Prelude.vio theories/Onto/Tree.vio theories/Onto/Kinds.vio
+theories/Onto/Update.vos theories/Onto/Update.vok theories/Onto/Update.required_vos: theories/Onto/Update.v theories/Base/Prelude.vos theories/Onto/Tree.vos theories/Onto/Kinds.vos
+theories/Onto/Update_proofs.vo theories/Onto/Update_proofs.glob theories/Onto/Update_proofs.v.beautified theories/Onto/Update_proofs.required_vo: theories/Onto/Update_proofs.v theories/Base/Prelude.vo theories/Onto/Tree.vo theories/Onto/Kinds.vo theories/Onto/Cmp_proofs.vo theories/Onto/Update.vo
+theories/Onto/Update_proofs.vio: theories/Onto/Update_proofs.v theories/Base/Prelude.vio theories/Onto/Tree.vio theories/Onto/Kinds.vio theories/Onto/Cmp_proofs.vio theories/Onto/Update.vio
+theories/Onto/Update_proofs.vos theories/Onto/Update_proofs.vok theories/Onto/Update_proofs.required_vos: theories/Onto/Update_proofs.v theories/Base/Prelude.vos theories/Onto/Tree.vos theories/Onto/Kinds.vos theories/Onto/Cmp_proofs.vos theories/Onto/Update.vos
 theories/Parse/Dispatch.vo theories/Parse/Dispatch.glob theories/Parse/Dispatch.v.beautified theories/Parse/Dispatch.required_vo: theories/Parse/Dispatch.v theories/Base/Prelude.vo
 theories/Parse/Dispatch.vio: theories/Parse/Dispatch.v theories/Base/Prelude.vio
 theories/Parse/Dispatch.vos theories/Parse/Dispatch.vok theories/Parse/Dispatch.required_vos: theories/Parse/Dispatch.v theories/Base/Prelude.vos
@@ -73,6 +79,9 @@ theories/Props/C07.vos theories/Props/C07.vok theories/Props/C07.required_vos: t
 theories/Props/C09.vo theories/Props/C09.glob theories/Props/C09.v.beautified theories/Props/C09.required_vo: theories/Props/C09.v theories/Base/Prelude.vo theories/Onto/Tree.vo theories/Onto/Kinds.vo theories/Onto/Cmp_proofs.vo theories/Generated/C09_gen.vo
 theories/Props/C09.vio: theories/Props/C09.v theories/Base/Prelude.vio theories/Onto/Tree.vio theories/Onto/Kinds.vio theories/Onto/Cmp_proofs.vio theories/Generated/C09_gen.vio
 theories/Props/C09.vos theories/Props/C09.vok theories/Props/C09.required_vos: theories/Props/C09.v theories/Base/Prelude.vos theories/Onto/Tree.vos theories/Onto/Kinds.vos theories/Onto/Cmp_proofs.vos theories/Generated/C09_gen.vos
+theories/Props/C11.vo theories/Props/C11.glob theories/Props/C11.v.beautified theories/Props/C11.required_vo: theories/Props/C11.v theories/Base/Prelude.vo theories/Onto/Tree.vo theories/Onto/Kinds.vo theories/Onto/Cmp_proofs.vo theories/Onto/Update.vo theories/Onto/Update_proofs.vo
+theories/Props/C11.vio: theories/Props/C11.v theories/Base/Prelude.vio theories/Onto/Tree.vio theories/Onto/Kinds.vio theories/Onto/Cmp_proofs.vio theories/Onto/Update.vio theories/Onto/Update_proofs.vio
+theories/Props/C11.vos theories/Props/C11.vok theories/Props/C11.required_vos: theories/Props/C11.v theories/Base/Prelude.vos theories/Onto/Tree.vos theories/Onto/Kinds.vos theories/Onto/Cmp_proofs.vos theories/Onto/Update.vos theories/Onto/Update_proofs.vos
 theories/Props/C14.vo theories/Props/C14.glob theories/Props/C14.v.beautified theories/Props/C14.required_vo: theories/Props/C14.v theories/Base/Prelude.vo theories/Parse/Dispatch.vo theories/Parse/Dispatch_proofs.vo
 theories/Props/C14.vio: theories/Props/C14.v theories/Base/Prelude.vio theories/Parse/Dispatch.vio theories/Parse/Dispatch_proofs.vio
 theories/Props/C14.vos theories/Props/C14.vok theories/Props/C14.required_vos: theories/Props/C14.v theories/Base/Prelude.vos theories/Parse/Dispatch.vos theories/Parse/Dispatch_proofs.vos
